@@ -12,7 +12,10 @@ META = {
             "polymorphic model code instantiated with integers mod p in {7,13,31} is extracted and run against the C++ templates "
             "instantiated with a GF(p) class whose abs() is the representative (so pivot choices coincide), on constructed pivot/rank "
             "patterns, exhaustive small scopes and random matrices; oracle: A*x=b, A*B=B*A=I, determinant (independent Python "
-            "elimination cross-checked against the Coq cofactor expansion), FMatrixError iff singular for n>=4, inputs unchanged.",
+            "elimination cross-checked against the Coq cofactor expansion), FMatrixError iff singular for n>=4, inputs unchanged.  "
+            "Magnitude stream: the same model at the rationals (pivot test re-read from the source) against double / long double / float / "
+            "complex<double> on matrices diag(2^e) A diag(2^f) on which the floating-point computation is exact, judged in exact rational "
+            "arithmetic, plus bit-exact metamorphic scaling pairs (theorems C02_scaling_*).",
     "note": "Trusted: Coq kernel, extraction, OCaml driver, the GF(p) class and C++ harness, g++.  Floating-point backward error is a "
             "labelled TEST (thorough tier), not a theorem.  SIMD lanes are C09.",
     "design_ref": "DESIGN.md section 4 C02",
@@ -441,13 +444,18 @@ def gen(ctx):
 
 
 def build(ctx, san=False):
+    sc = lambda out, opt, extra: dict(srcs=[os.path.join(H, "scale.cc")], out=ctx.path(out), opt=opt, flags=["-I" + H] + extra)
     jobs = [dict(srcs=[os.path.join(H, "impl.cc")], out=ctx.path("impl"), opt="-O2", flags=["-I" + H]),
             dict(srcs=[os.path.join(H, "impl.cc")], out=ctx.path("impl_chk"), opt="-O1", flags=["-I" + H, "-DDUNE_FMatrix_WITH_CHECKING"])]
     if san:
         jobs.append(dict(srcs=[os.path.join(H, "impl.cc")], out=ctx.path("impl_san"), san=True, flags=["-I" + H]))
-    outs = V.cxx_many(ctx, jobs)
+    jobs.append(sc("scale", "-O2", []))
+    outs = V.cxx_many(ctx, jobs)                       # at most 4 compilers at a time
     deep = None
-    ctx.simd_exe = V.cxx(ctx, [os.path.join(H, "simd.cc")], ctx.path("simd"), opt="-O1", flags=["-I" + H])
+    o2 = V.cxx_many(ctx, [dict(srcs=[os.path.join(H, "simd.cc")], out=ctx.path("simd"), opt="-O1", flags=["-I" + H]),
+                          sc("scale_chk", "-O1", ["-DDUNE_FMatrix_WITH_CHECKING"])])
+    ctx.simd_exe = o2[0]
+    ctx.scale_exes = [outs[-1], o2[1]]
     try:
         deep = V.cxx(ctx, [os.path.join(H, "deep.cc")], ctx.path("deep"), opt="-O1", flags=["-I" + H])
     except V.BuildError as e:
@@ -798,6 +806,470 @@ def simd_stage(ctx, exe):
                                            "all regular / one exactly singular lane at every elimination step / several / all singular; pivoting on and off"}
     return len(cases)
 
+
+# ----------------------------------------------------------------------------- round 6: the MAGNITUDE dimension
+# Floating-point field types (double, long double, float, complex<double>) on matrices A' = diag(2^e) * A * diag(2^f) with
+# small-integer A (harness/C02/scale.cc).  Scaling by powers of two is exact in binary floating point, so
+#   stream x: cases on which EVERY intermediate result of the algorithm is representable in the type (checked by running
+#             the algorithm in rational arithmetic, sim_*): the IEEE computation is then the exact one; the impl's output is
+#             judged by the spec in exact rational arithmetic (A' x = b', A' B = B A' = I, det, FMatrixError iff singular for
+#             n >= 4) and compared with the Gallina model instantiated at the rationals (c02_q, pivot test re-read from the source);
+#   stream m: arbitrary small-integer matrices, uniform scaling 2^k: the impl's results for 2^k * A must be bit-exactly the
+#             rescaled results for A (metamorphic; no over/underflow by the choice of k).
+FP = {"d": (53, -1022, 1023), "l": (64, -16382, 16383), "f": (24, -126, 127), "c": (53, -1022, 1023), "i": (53, -1022, 1023)}
+
+
+def _dy(fr):
+    """(odd mantissa, exponent) of a non-zero dyadic rational, else None"""
+    a, d = abs(fr.numerator), fr.denominator
+    if d & (d - 1):
+        return None
+    tz = (a & -a).bit_length() - 1
+    return a >> tz, tz - (d.bit_length() - 1)
+
+
+def fp_repr(fr, T):
+    if fr == 0:
+        return True
+    q = _dy(fr)
+    if q is None:
+        return False
+    prec, emin, emax = FP[T]
+    return q[0].bit_length() <= prec and emin <= q[1] + q[0].bit_length() - 1 <= emax
+
+
+def fp_str(fr):
+    if fr == 0:
+        return "0"
+    q = _dy(fr)
+    sg = "-" if fr < 0 else ""
+    if q is None:
+        return "%sR%x/%x" % (sg, abs(fr.numerator), fr.denominator)
+    return "%s%xp%d" % (sg, q[0], q[1])
+
+
+def fp_parse(tok):
+    """exact value printed by scale.cc / the model driver; None for inf / nan"""
+    if tok in ("inf", "-inf", "nan"):
+        return None
+    if tok == "0":
+        return Fraction(0)
+    sg = -1 if tok[0] == "-" else 1
+    tok = tok.lstrip("-")
+    if tok[0] == "R":
+        a, b = tok[1:].split("/")
+        return sg * Fraction(int(a, 16), int(b, 16))
+    m, e = tok.split("p")
+    return sg * Fraction(int(m, 16)) * Fraction(2) ** int(e)
+
+
+def q_parse(case):
+    t = case.split()
+    kind, op, n, piv = t[1], t[2], int(t[3]), int(t[4])
+    v = [int(x) for x in t[5:]]
+    e, f, g = v[:n], v[n:2 * n], v[2 * n]
+    a = v[2 * n + 1:2 * n + 1 + n * n]
+    A0 = [a[i * n:(i + 1) * n] for i in range(n)]
+    b0 = v[2 * n + 1 + n * n:]
+    two = Fraction(2)
+    A = [[Fraction(A0[i][j]) * two ** (e[i] + f[j]) for j in range(n)] for i in range(n)]
+    b = [Fraction(x) * two ** g for x in b0]
+    return kind, op, n, (1 if piv else 0), e, f, g, A0, b0, A, b
+
+
+class _Sim:
+    """the algorithm of densematrix.hh in rational arithmetic; ok stays True while every result is representable in T"""
+    def __init__(self, T):
+        self.T = T; self.ok = True
+
+    def r(self, v):
+        if not fp_repr(v, self.T):
+            self.ok = False
+        return v
+
+    def lu(self, M, n, piv, swap, elim):
+        r = self.r
+        for i in range(n):
+            pm, im = abs(M[i][i]), i
+            if piv:
+                for k in range(i + 1, n):
+                    if abs(M[k][i]) > pm:
+                        pm, im = abs(M[k][i]), k
+                M[i], M[im] = M[im], M[i]
+                swap(i, im)
+            if pm == 0:
+                return i
+            for k in range(i + 1, n):
+                f = r(M[k][i] / M[i][i]); M[k][i] = f
+                for j in range(i + 1, n):
+                    M[k][j] = r(M[k][j] - r(f * M[i][j]))
+                elim(f, k, i)
+        return None
+
+
+def sim_case(T, op, n, piv, A, b, e, f, g, A0):
+    """(status, exact): status 'ok' | 'zero' (a zero pivot is met: FMatrixError) ; exact: every intermediate representable"""
+    S = _Sim(T); r = S.r
+    for row in A:
+        for x in row:
+            r(x)
+    for x in b:
+        r(x)
+    if n <= 3:
+        # closed forms, operation by operation in the order of the code (densematrix.hh / c02_solve, c02_invert, c02_det3)
+        d0 = frac_solve(A0, [[0] for _ in range(n)])[0]
+        if d0 == 0:
+            return "zero", False
+        mul = lambda x, y: r(x * y); sub = lambda x, y: r(x - y); add = lambda x, y: r(x + y)
+        m3 = lambda x, y, z: mul(mul(x, y), z)
+        a = A
+        def det3():
+            t4 = mul(a[0][0], a[1][1]); t6 = mul(a[0][0], a[1][2]); t8 = mul(a[0][1], a[1][0])
+            t10 = mul(a[0][2], a[1][0]); t12 = mul(a[0][1], a[2][0]); t14 = mul(a[0][2], a[2][0])
+            return (sub(add(add(sub(sub(mul(t4, a[2][2]), mul(t6, a[2][1])), mul(t8, a[2][2])), mul(t10, a[2][1])), mul(t12, a[1][2])), mul(t14, a[1][1])),
+                    t4, t6, t8, t10, t12, t14)
+        if n == 1:
+            if op == "solve": r(b[0] / a[0][0])
+            elif op == "invert": r(1 / a[0][0])
+        elif n == 2:
+            det = sub(mul(a[0][0], a[1][1]), mul(a[0][1], a[1][0]))
+            if op != "det":
+                if det == 0:
+                    return "ok", False
+                di = r(1 / det)
+                if op == "solve":
+                    mul(di, sub(mul(a[1][1], b[0]), mul(a[0][1], b[1]))); mul(di, sub(mul(a[0][0], b[1]), mul(a[1][0], b[0])))
+                else:
+                    for x in (a[1][1], a[0][1], a[1][0], a[0][0]):
+                        mul(x, di)
+        else:
+            det, t4, t6, t8, t10, t12, t14 = det3()
+            if op != "det" and det == 0:
+                return "ok", False
+            if op == "solve":
+                def six(p1, m1, m2, p2, p3, m3_):
+                    return sub(add(add(sub(sub(p1, m1), m2), p2), p3), m3_)
+                n0 = six(m3(b[0], a[1][1], a[2][2]), m3(b[0], a[2][1], a[1][2]), m3(b[1], a[0][1], a[2][2]), m3(b[1], a[2][1], a[0][2]), m3(b[2], a[0][1], a[1][2]), m3(b[2], a[1][1], a[0][2]))
+                n1 = six(m3(a[0][0], b[1], a[2][2]), m3(a[0][0], b[2], a[1][2]), m3(a[1][0], b[0], a[2][2]), m3(a[1][0], b[2], a[0][2]), m3(a[2][0], b[0], a[1][2]), m3(a[2][0], b[1], a[0][2]))
+                n2 = six(m3(a[0][0], a[1][1], b[2]), m3(a[0][0], a[2][1], b[1]), m3(a[1][0], a[0][1], b[2]), m3(a[1][0], a[2][1], b[0]), m3(a[2][0], a[0][1], b[1]), m3(a[2][0], a[1][1], b[0]))
+                for x in (n0, n1, n2):
+                    r(x / det)
+            elif op == "invert":
+                t17 = r(1 / det)
+                for x in (sub(mul(a[1][1], a[2][2]), mul(a[1][2], a[2][1])), sub(mul(a[0][1], a[2][2]), mul(a[0][2], a[2][1])), sub(mul(a[0][1], a[1][2]), mul(a[0][2], a[1][1])),
+                          sub(mul(a[1][0], a[2][2]), mul(a[1][2], a[2][0])), sub(mul(a[0][0], a[2][2]), t14), sub(t6, t10),
+                          sub(mul(a[1][0], a[2][1]), mul(a[1][1], a[2][0])), sub(mul(a[0][0], a[2][1]), t12), sub(t4, t8)):
+                    mul(x, t17)
+        return "ok", S.ok
+    M = [row[:] for row in A]
+    if op == "solve":
+        rhs = b[:]
+        def sw(i, j): rhs[i], rhs[j] = rhs[j], rhs[i]
+        def el(fa, k, i): rhs[k] = r(rhs[k] - r(fa * rhs[i]))
+        z = S.lu(M, n, piv, sw, el)
+        if z is not None:
+            return "zero", S.ok
+        for i in range(n - 1, -1, -1):
+            for j in range(i + 1, n):
+                rhs[i] = r(rhs[i] - r(M[i][j] * rhs[j]))
+            rhs[i] = r(rhs[i] / M[i][i])
+        return "ok", S.ok
+    if op == "det":
+        z = S.lu(M, n, piv, lambda i, j: None, lambda fa, k, i: None)
+        if z is not None:
+            return "zero", S.ok
+        d = Fraction(1)
+        for i in range(n):
+            d = r(d * M[i][i])
+        return "ok", S.ok
+    z = S.lu(M, n, piv, lambda i, j: None, lambda fa, k, i: None)
+    if z is not None:
+        return "zero", S.ok
+    B = [[Fraction(int(i == j)) for j in range(n)] for i in range(n)]
+    for i in range(n):
+        for j in range(i):
+            for k in range(n):
+                B[i][k] = r(B[i][k] - r(M[i][j] * B[j][k]))
+    for i in range(n - 1, -1, -1):
+        for k in range(n):
+            for j in range(i + 1, n):
+                B[i][k] = r(B[i][k] - r(M[i][j] * B[j][k]))
+            B[i][k] = r(B[i][k] / M[i][i])
+    return "ok", S.ok
+
+
+def q_values(T, main):
+    """the numbers of an 'OK ...' line as exact rationals (complex types: list of (re, im)); None if inf/nan/unparsable"""
+    try:
+        out = []
+        for tok in main[2:].split():
+            if T in "ci":
+                a, b = tok.split(",")
+                a, b = fp_parse(a), fp_parse(b)
+                if a is None or b is None:
+                    return None
+                out.append((a, b))
+            else:
+                a = fp_parse(tok)
+                if a is None:
+                    return None
+                out.append((a, Fraction(0)))
+        return out
+    except Exception:
+        return None
+
+
+def q_oracle(case, obs, chk=False):
+    """stream x (exact cases): the spec applied to the impl's own output in exact rational (Gaussian rational) arithmetic"""
+    kind, op, n, piv, e, f, g, A0, b0, A, b = q_parse(case)
+    T = kind[0]
+    if obs.startswith(("CRASH", "HANG", "NOT-RUN", "BAD-CASE", "UNKNOWN")):
+        return ("crash", "impl did not return: %s" % obs)
+    main, _, flag = obs.partition(" | ")
+    if flag.strip() != "U":
+        return ("inputs-modified", "A or b modified: %s" % obs[:100])
+    d, _x = frac_solve(A, [[0] for _ in range(n)])
+    status, exact = sim_case(T, op, n, piv, A, b, e, f, g, A0)
+    if chk and n <= 3:
+        dd = abs(d)
+        if dd < Fraction(1, 10 ** 80):
+            return None                                # checking build, |det| below the documented limit: outside the property
+    if d == 0:
+        if n >= 4:
+            if op == "det":
+                return None if main == "OK 0" or main == "OK 0,0" else ("wrong-det", "exactly singular, determinant %s" % main[:80])
+            return None if main == "EXC FMatrixError" else ("singular-not-reported", "exactly singular %dx%d matrix but %s" % (n, n, main[:80]))
+        return None
+    if status == "zero":                               # regular, unpivoted elimination undefined: property silent
+        return None
+    if not main.startswith("OK"):
+        return ("nonsingular-error", "nonsingular (det = %s, <hex mantissa>p<binary exponent>) and elimination defined, but %s" % (fp_str(d), main[:80]))
+    vals = q_values(T, main)
+    if vals is None:
+        return ("nonsingular-error", "nonsingular but non-finite / unparsable result: %s" % main[:120])
+    # the complex types hold u * A' with u = 1 (c) or u = i (i): compare with the real computation
+    u = (Fraction(0), Fraction(1)) if T == "i" else (Fraction(1), Fraction(0))
+    cm = lambda p_, q_: (p_[0] * q_[0] - p_[1] * q_[1], p_[0] * q_[1] + p_[1] * q_[0])
+    if op == "det":
+        want = (d, Fraction(0))
+        for _ in range(n):
+            want = cm(want, u)
+        return None if vals == [want] else ("wrong-det", "determinant %s, exact %s" % (main[:80], fp_str(want[0]) + "," + fp_str(want[1])))
+    if op == "solve":
+        if len(vals) != n:
+            return ("format", "wrong length")
+        for i in range(n):                             # (u A') x = b'
+            acc = (Fraction(0), Fraction(0))
+            for j in range(n):
+                t_ = cm(cm(u, (A[i][j], Fraction(0))), vals[j]); acc = (acc[0] + t_[0], acc[1] + t_[1])
+            if acc != (b[i], Fraction(0)):
+                return ("wrong-solution", "A*x != b in exact arithmetic (row %d): x = %s" % (i, main[:120]))
+        return None
+    if len(vals) != n * n:
+        return ("format", "wrong length")
+    for i in range(n):                                 # (u A') B = I and B (u A') = I
+        for k in range(n):
+            a1 = (Fraction(0), Fraction(0)); a2 = (Fraction(0), Fraction(0))
+            for j in range(n):
+                t_ = cm(cm(u, (A[i][j], Fraction(0))), vals[j * n + k]); a1 = (a1[0] + t_[0], a1[1] + t_[1])
+                t_ = cm(vals[i * n + j], cm(u, (A[j][k], Fraction(0)))); a2 = (a2[0] + t_[0], a2[1] + t_[1])
+            if a1 != (Fraction(int(i == k)), Fraction(0)) or a2 != (Fraction(int(i == k)), Fraction(0)):
+                return ("wrong-inverse", "A*B != I or B*A != I in exact arithmetic at (%d,%d): %s" % (i, k, main[:100]))
+    return None
+
+
+def m_oracle(case, obs, base_obs):
+    """stream m: the result for 2^k * A (b' = 2^g b) must be the exactly rescaled result for A (k = g = 0)"""
+    kind, op, n, piv, e, f, g, A0, b0, A, b = q_parse(case)
+    T = kind[0]; k = e[0]
+    if obs.startswith(("CRASH", "HANG", "NOT-RUN", "BAD-CASE", "UNKNOWN")):
+        return ("crash", "impl did not return: %s" % obs)
+    main, _, flag = obs.partition(" | ")
+    bmain = base_obs.partition(" | ")[0]
+    if flag.strip() != "U":
+        return ("inputs-modified", "A or b modified: %s" % obs[:100])
+    if not bmain.startswith("OK"):
+        return None if main.split()[:2] == bmain.split()[:2] else ("scaling-changes-outcome", "A gives %s, 2^%d * A gives %s" % (bmain[:40], k, main[:60]))
+    if not main.startswith("OK"):
+        return ("nonsingular-error", "A is solved/inverted (%s ...) but 2^%d * A gives %s" % (bmain[:30], k, main[:60]))
+    v0, v1 = q_values(T, bmain), q_values(T, main)
+    if v0 is None:
+        return None
+    sc = Fraction(2) ** (k * n if op == "det" else (g - k if op == "solve" else -k))
+    want = [(a * sc, b_ * sc) for a, b_ in v0]
+    return None if v1 == want else ("scaling-law", "result for 2^%d * A is not the exactly rescaled result for A: %s vs %s" % (k, main[:80], bmain[:80]))
+
+
+def q_fmt(kind, op, n, piv, e, f, g, A0, b0):
+    return "Q %s %s %d %d %s %s %d %s%s" % (kind, op, n, piv, " ".join(map(str, e)), " ".join(map(str, f)), g,
+                                           " ".join(str(x) for r in A0 for x in r), (" " + " ".join(map(str, b0))) if op == "solve" else "")
+
+
+def q_gen(ctx):
+    rng = ctx.rng("scale")
+    quick = ctx.quick
+    xs, ms = [], []
+    cp = os.path.join(V.VERIF, "corpus", "C02", "scale.txt")
+    if os.path.exists(cp):
+        xs += [l.strip() for l in open(cp) if l.strip() and not l.startswith("#")]
+    # base matrices: P^T L U with unit lower L over {-1,0,1}, U with diagonal +-2^j (singular: one zero), n = 1..8
+    def base(n, sing):
+        for _ in range(200):
+            perm = list(range(n)); rng.shuffle(perm)
+            zs = {rng.randrange(n)} if sing else set()
+            Lm = [[(1 if i == j else (rng.choice([-1, 0, 0, 1]) if j < i else 0)) for j in range(n)] for i in range(n)]
+            U = [[(0 if j < i else ((0 if i in zs else rng.choice([-4, -2, -1, 1, 1, 2])) if i == j else rng.choice([-2, -1, 0, 0, 1, 2, 3]))) for j in range(n)] for i in range(n)]
+            M = [[sum(Lm[i][k] * U[k][j] for k in range(n)) for j in range(n)] for i in range(n)]
+            A0 = [M[perm[i]] for i in range(n)]
+            if max(abs(x) for r in A0 for x in r) <= 12 and any(A0[i][i] for i in range(n)):
+                return A0
+        return None
+    uni = {"d": [0, -1, 60, -60, -264, -265, -266, -267, -300, 300, -330, 500, -500],
+           "l": [0, 70, -266, -300, 1000, -1000, -4000, 4000],
+           "f": [0, 20, -20, 36, -36],
+           "c": [0, -266, -300, 300], "i": [0, -1, -266, -300, 200]}
+    big = {"d": 300, "l": 1000, "f": 30, "c": 300, "i": 250}
+    types = ["d", "l", "f", "c", "i"]
+    reps = 2 if quick else 10
+    for n in range(1, 9):
+        for T in types:
+            for K in ("F", "D"):
+                if K == "F" and n > 6:
+                    continue
+                for rep in range(reps):
+                    sing = n >= 4 and rep % 3 == 2
+                    A0 = base(n, sing)
+                    if A0 is None:
+                        continue
+                    scal = [([k] * n, [0] * n) for k in uni[T]]
+                    Bg = big[T]
+                    # row-wise / column-wise / both: D1 * A * D2, e.g. columns scaled by (2^-B, 1, ..., 1, 2^B) (determinant unchanged)
+                    scal.append(([0] * n, [-Bg] + [0] * (n - 2) + ([Bg] if n > 1 else [])))
+                    scal.append(([Bg] + [0] * (n - 2) + ([-Bg] if n > 1 else []), [0] * n))
+                    scal.append(([rng.choice([-Bg, 0, Bg // 3]) for _ in range(n)], [rng.choice([-Bg // 2, 0, Bg // 2]) for _ in range(n)]))
+                    scal.append(([rng.randrange(-Bg, Bg) for _ in range(n)], [0] * n))
+                    scal.append(([0] * n, [rng.randrange(-Bg, Bg) for _ in range(n)]))
+                    for op in ("solve", "invert", "det"):
+                        got = 0
+                        for (e, f) in scal:
+                            if got >= (5 if quick else 9):
+                                break
+                            if quick and rng.random() < 0.35 and e[0] not in (-300, -266, -1000, -36) :
+                                continue
+                            piv = rng.choice([0, 1, 1, 2])
+                            g = rng.choice([0, e[0], -e[0] // 2]) if op == "solve" else 0
+                            b0 = [rng.randrange(-3, 4) for _ in range(n)] if op == "solve" else []
+                            c = q_fmt(T + K + "x", op, n, piv, e, f, g, A0, b0)
+                            kind, op_, n_, piv_, e_, f_, g_, A0_, b0_, A, b = q_parse(c)
+                            st, ex = sim_case(T, op, n, piv_, A, b, e, f, g, A0)
+                            if not ex:
+                                continue
+                            if n <= 3 and st != "ok":
+                                continue
+                            xs.append(c); got += 1
+    # stream m: arbitrary small-integer matrices (pivots that are not powers of two), uniform scaling
+    mk = {"d": [60, -60, 200, -200, -270, -300, 300], "l": [1000, -1000, -4000, 4000, -270], "f": [20, -20, 30, -30], "c": [-270, 200, -300]}
+    for n in range(1, 9):
+        for T in ("d", "l", "f", "c"):
+            for K in ("F", "D"):
+                if K == "F" and n > 6:
+                    continue
+                for rep in range(1 if quick else 6):
+                    A0 = [[rng.randrange(-9, 10) for _ in range(n)] for _ in range(n)]
+                    if rep % 4 == 3 and n >= 4:
+                        A0[rng.randrange(1, n)] = A0[0][:]      # exactly singular (duplicate row)
+                    elif frac_solve(A0, [[0] for _ in range(n)])[0] == 0:
+                        continue
+                    for op in ("solve", "invert", "det"):
+                        piv = rng.choice([0, 1, 1, 2])
+                        if not piv and lu_sim(A0, 0)[0] != "ok":
+                            piv = 1
+                        b0 = [rng.randrange(-5, 6) for _ in range(n)] if op == "solve" else []
+                        ks = []
+                        prec, emin, emax = FP[T]
+                        for k in mk[T]:
+                            lim = min(-emin, emax) - 3 * prec - 16
+                            need = abs(k) * (n if op == "det" or n <= 3 else 2)
+                            if need <= lim:
+                                ks.append(k)
+                        if not ks:
+                            continue
+                        basec = q_fmt(T + K + "m", op, n, piv, [0] * n, [0] * n, 0, A0, b0)
+                        for k in (ks if not quick else rng.sample(ks, min(2, len(ks)))):
+                            g = rng.choice([0, k]) if op == "solve" else 0
+                            ms.append((basec, q_fmt(T + K + "m", op, n, piv, [k] * n, [0] * n, g, A0, b0)))
+    return xs, ms
+
+
+def scale_stage(ctx, model, exe, exe_chk):
+    xs, ms = q_gen(ctx)
+    io = V.run_cases(ctx, [exe], xs, tag="qimpl", timeout=120)
+    mo = V.run_cases(ctx, [model], xs, tag="qmodel", timeout=600)
+    rej = dis = 0
+    hist = {}
+    def report(c, a, m, r, mode):
+        t = c.split()
+        ctx.violation("C02:%s:%s:%s:%s" % (t[2], t[1], "n<=3" if int(t[3]) <= 3 else "n>=4", r[0]),
+                      {"case": c, "impl": a, "model": m, "oracle": r[1], "mode": mode, "replay_cmd": "bin/check C02 --replay <this file>"})
+    for c, a, m in zip(xs, io, mo):
+        t = c.split()
+        key = "%s/%s/n%s/%s" % (t[1][0], t[2], t[3], "OK" if a.startswith("OK") else " ".join(a.split()[:2]))
+        hist[key] = hist.get(key, 0) + 1
+        r = q_oracle(c, a)
+        if r is not None:
+            rej += 1
+            if rej <= 25:
+                report(c, a, m, r, "scale")
+        elif a != m:
+            dis += 1
+            if dis <= 10:
+                ctx.violation("corr:C02/scale-%s" % t[2], {"broken": "corr:C02/scale (rational instance of the model vs floating-point impl on an exact case)",
+                                                            "case": c, "impl": a, "model": m, "oracle": "accepts impl output"}, found_input=False)
+        rm = q_oracle(c, m)
+        if rm is not None:
+            ctx.notes.append("MODEL (rational instance) rejected by oracle on %s: %s" % (c, rm[1]))
+            ctx.violation("model:C02/oracle", {"broken": "model (rational instance, pivot test as re-read from the source) violates the spec oracle",
+                                               "case": c, "model": m, "oracle": rm[1]}, found_input=False)
+    # metamorphic stream
+    allm = sorted(set([b for b, _ in ms] + [c for _, c in ms]))
+    mio = dict(zip(allm, V.run_cases(ctx, [exe], allm, tag="mimpl", timeout=120)))
+    mrej = 0
+    for bc, c in ms:
+        r = m_oracle(c, mio[c], mio[bc])
+        if r is not None:
+            mrej += 1
+            if mrej <= 15:
+                report(c, mio[c], "base case %s -> %s" % (bc, mio[bc][:200]), r, "scale-m")
+    # checking build: exact cases n <= 4 (the documented threshold of the closed forms n <= 3 becomes visible in this dimension)
+    cx = [c for c in xs if int(c.split()[3]) <= 4]
+    cio = V.run_cases(ctx, [exe_chk], cx, tag="qcimpl", timeout=120)
+    cmo = V.run_cases(ctx, [model, "chk"], cx, tag="qcmodel", timeout=600)
+    crej = cdis = below = 0
+    for c, a, m in zip(cx, cio, cmo):
+        r = q_oracle(c, a, chk=True)
+        if a.startswith("EXC FMatrixError") and int(c.split()[3]) <= 3:
+            below += 1
+        if r is not None:
+            crej += 1
+            if crej <= 10:
+                report(c, a, m, r, "scale-chk")
+        elif a != m:
+            cdis += 1
+            if cdis <= 5:
+                ctx.violation("corr:C02/scale-chk-%s" % c.split()[2], {"broken": "corr:C02/scale-chk (checking build: threshold test of the closed forms vs the model's c02_*_chk at the rationals)",
+                                                                        "case": c, "impl": a, "model": m, "oracle": "accepts impl output"}, found_input=False)
+    ctx.coverage["magnitude_stream"] = {
+        "exact_cases": len(xs), "exact_oracle_rejections": rej, "exact_impl_model_disagreements": dis,
+        "metamorphic_pairs": len(ms), "metamorphic_rejections": mrej,
+        "checking_build_cases": len(cx), "checking_build_rejections": crej, "checking_build_impl_model_disagreements": cdis,
+        "checking_build_n<=3_below_limit_FMatrixError_observed_not_judged": below,
+        "type_op_size_outcome": hist,
+        "what": "double / long double / float / complex<double>, FieldMatrix and DynamicMatrix, n = 1..8, A' = diag(2^e) A diag(2^f): uniform "
+                "(k up to +-500, +-4000 long double, around the 1e-80 = 2^-265.75 limit) and row/column scalings; exact cases judged in "
+                "rational arithmetic and compared with the rational instance of the model; metamorphic pairs compared bit-exactly"}
+    return len(xs) + len(allm) + len(cx)
+
+
 def params_hook(ctx):
     V.sh([sys.executable, os.path.join(V.VERIF, "tools", "extract_params.py"), ctx.repo], check=True)
 
@@ -815,6 +1287,7 @@ def run(ctx):
     stats = judge(ctx, cases, mo, io)
     nfield = field_instance_stage(ctx, cases, mo)
     nsimd = simd_stage(ctx, ctx.simd_exe)
+    nsimd += scale_stage(ctx, model, ctx.scale_exes[0], ctx.scale_exes[1])
     # the build with DUNE_FMatrix_WITH_CHECKING (non-default mode): all dense cases of size <= 4
     cc = [c for c in cases if c.split()[1] in "FDXY" and c.split()[2] in ("solve", "invert", "det", "seq") and int(c.split()[3]) <= 4]
     cmo = V.run_cases(ctx, [model, "chk"], cc, tag="cmodel", timeout=600)
@@ -924,6 +1397,22 @@ def replay(ctx, path):
         io = V.run_cases(ctx, [exe], [case], tag="rsimd", timeout=20)
         r = simd_oracle(case, io[0])
         print("case  :", case, "(SIMD lanes)"); print("impl  :", io[0]); print("oracle:", r[1] if r else "accepts")
+        return 1 if r else 0
+    if case.split()[0] == "Q":
+        mode = rep.get("mode", "scale")
+        chk = mode == "scale-chk"
+        exe = V.cxx(ctx, [os.path.join(H, "scale.cc")], ctx.path("scale_chk" if chk else "scale"), opt="-O1",
+                    flags=["-I" + H] + (["-DDUNE_FMatrix_WITH_CHECKING"] if chk else []))
+        if mode == "scale-m":
+            t = case.split(); n = int(t[3])
+            basec = " ".join(t[:5] + ["0"] * (2 * n + 1) + t[5 + 2 * n + 1:])
+            io = V.run_cases(ctx, [exe], [case, basec], tag="rscale", timeout=20)
+            r = m_oracle(case, io[0], io[1])
+            print("case  :", case); print("impl  :", io[0]); print("base  :", basec, "->", io[1]); print("oracle:", r[1] if r else "accepts")
+            return 1 if r else 0
+        io = V.run_cases(ctx, [exe], [case], tag="rscale", timeout=20)
+        r = q_oracle(case, io[0], chk)
+        print("case  :", case, "(DUNE_FMatrix_WITH_CHECKING build)" if chk else ""); print("impl  :", io[0]); print("oracle:", r[1] if r else "accepts")
         return 1 if r else 0
     model = V.build_model(ctx)
     chk = rep.get("mode") == "chk"
